@@ -29,7 +29,11 @@ type Layout struct {
 	// an explicit type after the value of a declare statement (`<<declare $x = 1 as number>>`): 0 none,
 	// 1 the type of the value, 2 any of string / number / bool - what is stored is the value's own (C03)
 	DeclAs int
-	rnd    *rand.Rand
+	// the first level is indented with Unit (2..7) spaces, every deeper level d with d-1 tabs: no line mixes
+	// the two kinds, and with a tab counting 8 columns (the library's and upstream's documented convention)
+	// every level is wider than the one around it, so the nesting is the same
+	MixKinds bool
+	rnd      *rand.Rand
 }
 
 func canonicalLayout() *Layout {
@@ -55,13 +59,16 @@ func randomLayout(rnd *rand.Rand) *Layout {
 		l.JunkProb = 0.15 + 0.3*rnd.Float64()
 	}
 	l.DeclAs = l.rnd.Intn(3)
+	if !l.Tabs && l.Unit >= 2 && l.Unit <= 7 && l.rnd.Intn(4) == 0 {
+		l.MixKinds, l.Ragged = true, false
+	}
 	return l
 }
 
 func (l *Layout) describe() map[string]any {
 	return map[string]any{"tabs": l.Tabs, "unit": l.Unit, "junk": l.JunkProb > 0, "crlf": l.CRLF, "spelling": l.Spelling,
 		"parens": l.Parens, "cmdspaces": l.CmdSpaces, "indentif": l.IndentIf, "trailing": l.TrailingCm,
-		"extrahead": l.ExtraHead, "nofinalnl": l.NoFinalNL, "ragged": l.Ragged, "declas": l.DeclAs}
+		"extrahead": l.ExtraHead, "nofinalnl": l.NoFinalNL, "ragged": l.Ragged, "declas": l.DeclAs, "mixkinds": l.MixKinds}
 }
 
 func (l *Layout) nl() string {
@@ -72,6 +79,9 @@ func (l *Layout) nl() string {
 }
 
 func (l *Layout) indent(d int) string {
+	if l.MixKinds && d >= 2 {
+		return strings.Repeat("\t", d-1)
+	}
 	if l.Tabs {
 		return strings.Repeat("\t", d)
 	}
